@@ -240,7 +240,7 @@ func genC04(seed uint64, idx int) *Plan {
 		base := genScriptBase(r)
 		base.Chunks, base.ReadBuf, base.Trailer = nil, 0, nil
 		base.ExtraIn = max(base.ExtraIn, 2)
-		kind := []string{"hello2-outersni", "hello2-innertype", "hello2-noech", "hello2-id", "hello2-suite-pre", "hello2-enc", "hello2-fresh", "hello2-nover", "hello2-enc-same"}[r.IntN(9)]
+		kind := []string{"hello2-outersni", "hello2-innertype", "hello2-noech", "hello2-id", "hello2-suite-pre", "hello2-enc", "hello2-fresh", "hello2-nover", "hello2-enc-same", "hello2-sibling"}[r.IntN(10)]
 		h := &HistoryPlan{Base: *base, Concurrent: r.IntN(3) == 0}
 		if r.IntN(2) == 0 {
 			h.Steps = append(h.Steps, HStep{Side: "c", Kind: "ccs"})
@@ -506,7 +506,7 @@ func genC05(seed uint64, idx int) *Plan {
 	return &Plan{Kind: "script", Seed: seed, Script: p}
 }
 
-var c02Subs = []string{"ech-trailing", "ech-trailing-sealed", "wrong-key", "wrong-info", "wrong-id-ext", "wrong-suite-ext", "trunc-enc", "trunc-payload", "aad-not-zeroed", "unlisted-suite", "canonical-info", "outer-zeros", "bad-enc", "info-concat", "low-order-enc"}
+var c02Subs = []string{"ech-trailing", "ech-trailing-sealed", "wrong-key", "wrong-info", "wrong-id-ext", "wrong-suite-ext", "trunc-enc", "trunc-payload", "aad-not-zeroed", "unlisted-suite", "canonical-info", "outer-zeros", "bad-enc", "info-concat", "low-order-enc", "sid-grown", "sid-grown"}
 
 func genC02(seed uint64, idx int, tier string) *Plan {
 	r := core.NewRand(seed, "plan")
